@@ -757,6 +757,11 @@ func planC05(prop string, seed uint64, tier string, idx int) *Plan {
 		}
 		p.Clients[0] = ops
 	}
+	if !natural && idx%12 == 5 && k.Store == "dir" {
+		p.Profile += ", then a memory store over the directory"
+		at := len(p.Clients[0]) / 3
+		p.Clients[0] = append(append(append([]Op{}, p.Clients[0][:at]...), Op{K: "restart", S: "memdir"}), p.Clients[0][at:]...)
+	}
 	if natural && idx%6 == 4 {
 		// stalled handlers and collection passes (fault): a goroutine stops for seconds at some scheduling point, holding
 		// whatever it holds, while the ticker goes on
